@@ -217,6 +217,16 @@ func RandInts(k int) {
 	panic(replayDiverged{diverged})
 }
 
+// FromSecureSourceOnly: under the engine, false iff the bytes depend on a value
+// drawn from math/rand (global or seeded) or from the clock. Natively the
+// question cannot be answered from the values: harnesses demonstrate a
+// dependence natively by re-seeding the insecure source and observing the
+// same "secret" again.
+func FromSecureSourceOnly(b []byte) bool { return true }
+
+// Stub: under the engine, calls of the named function return zero values.
+func Stub(name string) {}
+
 // AbstractArith asks the engine to try an abstraction of multiplications and
 // divisions (uninterpreted functions) before the exact bit-vector query.
 func AbstractArith() {}
